@@ -505,8 +505,16 @@ func orOK(s string) string {
 }
 
 // canon renders a value in the backend-neutral form used by the differential part:
-// scalars by their string form, lists in order, hashes sorted by field.
-func canon(v any) string {
+// scalars by their string form, lists in order, hashes sorted by field. typed: numbers
+// carry their Go kind (integer / float), because the readers of hash fields
+// (stats.getInt, getInt64, incrHashField) accept int64/int only.
+func canon(v any, typed bool) string {
+	tag := func(kind, s string) string {
+		if typed {
+			return kind + ":" + s
+		}
+		return s
+	}
 	switch x := v.(type) {
 	case nil:
 		return "<nil>"
@@ -515,20 +523,20 @@ func canon(v any) string {
 	case []byte:
 		return string(x)
 	case int64:
-		return strconv.FormatInt(x, 10)
+		return tag("int", strconv.FormatInt(x, 10))
 	case int:
-		return strconv.Itoa(x)
+		return tag("int", strconv.Itoa(x))
 	case float64:
 		if x == float64(int64(x)) {
-			return strconv.FormatInt(int64(x), 10)
+			return tag("float", strconv.FormatInt(int64(x), 10))
 		}
-		return strconv.FormatFloat(x, 'g', -1, 64)
+		return tag("float", strconv.FormatFloat(x, 'g', -1, 64))
 	case json.Number:
-		return x.String()
+		return tag("number", x.String())
 	case []any:
 		parts := make([]string, 0, len(x))
 		for _, e := range x {
-			parts = append(parts, strconv.Quote(canon(e)))
+			parts = append(parts, strconv.Quote(canon(e, typed)))
 		}
 		return "[" + strings.Join(parts, ",") + "]"
 	case map[string]any:
@@ -539,7 +547,7 @@ func canon(v any) string {
 		sort.Strings(ks)
 		parts := make([]string, 0, len(x))
 		for _, k := range ks {
-			parts = append(parts, strconv.Quote(k)+":"+strconv.Quote(canon(x[k])))
+			parts = append(parts, strconv.Quote(k)+":"+strconv.Quote(canon(x[k], typed)))
 		}
 		return "{" + strings.Join(parts, ",") + "}"
 	}
